@@ -17,7 +17,7 @@
 EXTENDS Integers, Sequences, FiniteSets, TLC, Json, Randomization
 
 CONSTANTS L,        \* number of call slots of a document program
-          Gen,      \* "all"/"all2": every program | "random": NRand random programs | "info": metadata sweep | "mc" | "trace"
+          Gen,      \* "all"/"all1": every program | "random": NRand random programs | "info": metadata sweep | "mc" | "trace"
           Alpha,    \* "small" | "full" call alphabet
           NRand
 
@@ -206,9 +206,8 @@ Init ==
   /\ Machine0
   /\ CASE Gen = "all" ->    /\ prog \in {p \in Progs : Canonical(p)}
                             /\ opts \in [compress : BOOLEAN, subset : BOOLEAN] /\ info = Mixed /\ infoAt \in {0}
-       [] Gen = "all2" ->   /\ prog \in {p \in Progs : Canonical(p)}      \* the two extreme option sets only
-                            /\ opts \in {[compress |-> TRUE, subset |-> TRUE], [compress |-> FALSE, subset |-> FALSE]}
-                            /\ info = Mixed /\ infoAt \in {0}
+       [] Gen = "all1" ->   /\ prog \in {p \in Progs : Canonical(p)}      \* default options only
+                            /\ opts = [compress |-> TRUE, subset |-> TRUE] /\ info = Mixed /\ infoAt = 0
        [] Gen = "random" -> /\ prog \in RandomSubset(NRand, Progs)
                             /\ opts \in [compress : BOOLEAN, subset : BOOLEAN]
                             /\ info \in RandomSubset(2, AllProfiles) /\ infoAt \in {0, 1}
